@@ -410,30 +410,36 @@ Definition get_char (utf8 : bool) (s : str) : option (str * str) :=
   | c :: t => if c =? c_amp then get_entity utf8 t else Some ([c], t)
   end.
 
-(* ReadText, white space kept (attribute values always; element text when condensing is off) *)
-Fixpoint read_keep (utf8 : bool) (fuel : nat) (s : str) : option str :=
+(* ReadText reads up to the end tag: "<" for element text, the opening quote for an attribute value.  The
+   input is the rest of the DOCUMENT (content followed by the delimiter and whatever comes after it), because
+   GetEntity looks ahead for ';' without regard to the end of the value. *)
+(* white space kept (attribute values always; element text when condensing is off) *)
+Fixpoint read_keep (utf8 : bool) (stop : N) (fuel : nat) (s : str) : option str :=
   match s with
   | [] => Some []
-  | _ => match fuel with
-         | O => None
-         | S k => match get_char utf8 s with
-                  | Some (v, rest) => match read_keep utf8 k rest with Some r => Some (v ++ r) | None => None end
-                  | None => None
-                  end
-         end
+  | c :: _ =>
+      if c =? stop then Some [] else
+      match fuel with
+      | O => None
+      | S k => match get_char utf8 s with
+               | Some (v, rest) => match read_keep utf8 stop k rest with Some r => Some (v ++ r) | None => None end
+               | None => None
+               end
+      end
   end.
 
-(* ReadText with condensing: leading white space skipped, runs become one blank, trailing dropped;
-   decoded references are never treated as white space *)
-Fixpoint read_condense (utf8 : bool) (fuel : nat) (pending : bool) (s : str) : option str :=
+(* with condensing: leading white space skipped, runs become one blank, trailing dropped; decoded references are
+   never treated as white space *)
+Fixpoint read_condense (utf8 : bool) (stop : N) (fuel : nat) (pending : bool) (s : str) : option str :=
   match s with
   | [] => Some []
   | c :: t =>
+      if c =? stop then Some [] else
       match fuel with
       | O => None
-      | S k => if is_space c then read_condense utf8 k true t
+      | S k => if is_space c then read_condense utf8 stop k true t
                else match get_char utf8 s with
-                    | Some (v, rest) => match read_condense utf8 k false rest with
+                    | Some (v, rest) => match read_condense utf8 stop k false rest with
                                         | Some r => Some ((if pending then [32] else []) ++ v ++ r)
                                         | None => None
                                         end
@@ -442,10 +448,12 @@ Fixpoint read_condense (utf8 : bool) (fuel : nat) (pending : bool) (s : str) : o
       end
   end.
 
-(* element text as getValue() sees it: blank text nodes are dropped (TiXmlElement::ReadValue) *)
-Definition xml_read_text (cw utf8 : bool) (s : str) : option str :=
-  match (if cw then read_condense utf8 (S (length s)) false (drop_ws s) else read_keep utf8 (S (length s)) s) with
+(* element text as getValue() sees it ([doc] = content followed by "</tag>..."): blank text nodes are dropped
+   (TiXmlElement::ReadValue) *)
+Definition xml_read_text (cw utf8 : bool) (doc : str) : option str :=
+  match (if cw then read_condense utf8 60 (S (length doc)) false (drop_ws doc) else read_keep utf8 60 (S (length doc)) doc) with
   | Some r => Some (if all_space r then [] else r)
   | None => None
   end.
-Definition xml_read_attr (utf8 : bool) (s : str) : option str := read_keep utf8 (S (length s)) s.
+(* attribute value ([doc] = content followed by the closing quote [q] and the rest of the document) *)
+Definition xml_read_attr (utf8 : bool) (q : N) (doc : str) : option str := read_keep utf8 q (S (length doc)) doc.
